@@ -230,4 +230,4 @@ class Check:
 def load_dump(res, only=None):
     if not res.dump or not os.path.exists(res.dump):
         raise MachineryFailure("TLC wrote no state dump")
-    return tlaval.parse_dump(res.dump, only=only)
+    return tlaval.parse_dump_fast(res.dump, only=only)
